@@ -792,6 +792,44 @@ def oracle(ctx: C.Ctx, cov: C.Coverage, n: Optional[int] = None, seed: Optional[
                                   f"packages {'with' if c1 else 'without'} / {'with' if c2 else 'without'} core properties: {r[2]}", case))
                 elif c1 == c2 and r[2] != "SUCCESS":
                     add(C.Failing("tool:aasx:equivalence:equal-files-fail", f"two identical packages compare as different: {r[1]}", case))
+        # (round 5) packages whose payload part is registered with a media type PARAMETER ("application/json; charset=utf-8" - what
+        # other tools write; the reader takes the part before ';'): the same data as the plainly registered package, and a
+        # difference in the data is a difference whatever the registration
+        import zipfile
+
+        def pkg2(path, value: int, write_json: bool, param: Optional[str]):
+            sm_ = model.Submodel("urn:vf:sm", [model.SubmodelElementCollection("c", [model.Property("p", model.datatypes.Int, value)])])
+            sh_ = model.AssetAdministrationShell(model.AssetInformation(global_asset_id="urn:vf:asset"), "urn:vf:aas",
+                                                 submodel={model.ModelReference.from_referable(sm_)})
+            with _aasx.AASXWriter(path) as w:
+                w.write_aas("urn:vf:aas", model.DictObjectStore([sm_, sh_]), _aasx.DictSupplementaryFileContainer(), write_json=write_json)
+            if param:
+                mt = "application/json" if write_json else "application/xml"
+                tmp = path + ".re"
+                with zipfile.ZipFile(path) as zi, zipfile.ZipFile(tmp, "w", zipfile.ZIP_DEFLATED) as zo:
+                    for it in zi.infolist():
+                        data = zi.read(it.filename)
+                        if it.filename == "[Content_Types].xml":
+                            data = data.replace(f'"{mt}"'.encode(), f'"{mt}{param}"'.encode())
+                        zo.writestr(it, data)
+                os.replace(tmp, path)
+        for wj in (True, False):
+            for param in ("; charset=utf-8", ";charset=UTF-8"):
+                fm = "json" if wj else "xml"
+                p1, p2, p3 = os.path.join(d, "c1.aasx"), os.path.join(d, "c2.aasx"), os.path.join(d, "c3.aasx")
+                pkg2(p1, 5000, wj, param); pkg2(p2, 5000, wj, None); pkg2(p3, 4999, wj, param)
+                for label, (q1, q2), same in (("param/plain", (p1, p2), True), ("plain/param", (p2, p1), True),
+                                              ("param/param-other-value", (p1, p3), False), ("param-other-value/param", (p3, p1), False)):
+                    r = run_check("aasx", "equivalence", q1, q2)
+                    case = {"seed": seed, "fmt": "aasx", "check": "equivalence", "pair": f"content-type-parameter:{fm}:{param}:{label}"}
+                    if r[0] == "raise":
+                        add(C.Failing(f"tool:aasx:equivalence:raises:{r[1]}:content-type-parameter", f"check_aasx_files_equivalence raised {r[1]}: {r[2]}", case))
+                    elif same and r[2] != "SUCCESS":
+                        add(C.Failing(f"tool:aasx:equivalence:equal-data-fail:content-type-parameter:{fm}", f"two packages with the same data (the {fm} part "
+                                      f"of one is registered as '{param}') compare as different: {r[1]}", case))
+                    elif not same and r[2] == "SUCCESS":
+                        add(C.Failing(f"checker:missed:aasx:content-type-parameter:{fm}", f"two packages that differ in a Property value compare as equal "
+                                      f"when their {fm} part is registered with the parameter '{param}'", case))
     finally:
         shutil.rmtree(d, ignore_errors=True)
     # the known gap about unordered lists
